@@ -122,6 +122,9 @@ int read_elf(
     return -1;
   }
 
+  // sh_size of a section is not trusted: nothing is read past this length.
+  const uint64_t file_length = file.get_file_length();
+
   memset(e_ident, 0, 16);
   n = file.get_bytes(e_ident, 16);
 
@@ -363,7 +366,12 @@ int read_elf(
       uint32_t i;
       for (i = 0; i < elf_shdr.sh_size; i++)
       {
-        memory->write8(elf_shdr.sh_addr + i, file.get_int8());
+        // The file can end before the section does (truncated or corrupt
+        // sh_size / sh_offset).
+        int ch = file.get_int8();
+        if (ch == EOF) { break; }
+
+        memory->write8(elf_shdr.sh_addr + i, ch);
       }
 
       file.set(marker);
@@ -382,6 +390,10 @@ int read_elf(
       uint32_t i;
       for (i = 0; i < elf_shdr.sh_size; i += sym_size)
       {
+        // Stop at the last complete symbol of the file (sh_size can be
+        // anything, and close to 4GB i would wrap around).
+        if ((uint64_t)file.tell() + sym_size > file_length) { break; }
+
         char name[128];
 
         struct _elf_sym elf_sym;
